@@ -565,6 +565,16 @@ func genSegmentPrefixes(r *rand.Rand, t *Trace, thorough bool) {
 							ops = append(ops, s.searchOn(st2, mode))
 						}
 					}
+					// which segments the store now holds as loaded indexes (a damaged one must not be among them)
+					ids2, cached2 := st2.VerifSegmentIDs()
+					nm := st2.VerifMemtableCount()
+					ops = append(ops, func(c *Case) {
+						c.N(10).N(len(ids2))
+						for i := range ids2 {
+							c.U(ids2[i]).B(cached2[i])
+						}
+						c.N(nm)
+					})
 					st2.Close()
 				}
 				c.N(len(ops))
